@@ -51,18 +51,24 @@ PROPS = {
              'change nothing); Tokenizer.feed / Parser.feed are proved for byte strings of any length by loop invariants (every '
              'token appended is one complete well-formed message; every queued object is a valid Message, never an exception). '
              'Lemmas over the step specification give: exactly one real-time message per defined real-time byte, in order, and '
-             'the kept bytes form a subsequence of the input (Sublist axioms checked by Lean+Mathlib).',
-        note='trusted: pyvc, z3/cvc5, Lean kernel; MIDI 1.0 spec in contracts/spec_midi.py; the induction over the input that '
-             'lifts the per-step lemmas to whole streams is the standard one and is not mechanised; Parser.feed uses the proved '
+             'the kept bytes form a subsequence of the input (Sublist axioms checked by Lean+Mathlib). The lift to whole streams '
+             'is itself a loop invariant of the real Tokenizer.feed with ghost state (contract C04.stream-invariants): from any '
+             'well-formed state whose kept bytes are a subsequence of the history consumed so far, after feed(data) the kept '
+             'bytes are a subsequence of history ++ data and the real-time tokens emitted are exactly the defined real-time '
+             'bytes of data in order - for data of ANY length; the history parameter makes the clause compose over any '
+             'sequence of feed/feed_byte calls.',
+        note='trusted: pyvc, z3/cvc5, Lean kernel; MIDI 1.0 spec in contracts/spec_midi.py; the whole-stream clauses are stated '
+             'at token level (decoding a token gives a message with exactly these bytes: C01/C02); Parser.feed uses the proved '
              'summary of Tokenizer.feed at the call site (abstract token queue)',
         clauses=[
             ['feed_byte from any WF state: WF preserved, <=1 token, token well-formed, step relation', 'P'],
             ['Tokenizer.feed / Parser.feed over any byte string: never raise, every queued message valid', 'P'],
             ['one real-time message per defined real-time byte, in order (step lemma)', 'P'],
             ['bytes of other messages form a subsequence of the input (step lemma + Sublist axioms in Lean)', 'P'],
-            ['lifting step lemmas to whole streams (induction on the input)', 'assumed meta-theorem'],
+            ['whole streams: kept bytes (tokens ++ partial message) are a subsequence of history ++ data; real-time tokens == '
+             'defined real-time bytes of data in order; loop invariant of the real Tokenizer.feed with ghost history, any length', 'P'],
         ],
-        assumptions=['induction over the input stream lifting per-step lemmas (not mechanised)',
+        assumptions=['the Sublist predicate is used through instances of A1..A3 only (uninterpreted in z3)',
                      'correspondence between the z3 Sublist axioms and the Lean statements A0..A3 (by inspection)'],
         trusted_base=['Lean 4 + Mathlib (list theory A0..A3)'],
         external=[dict(name='lean:ListTheory', cmd=['lean', 'lean/ListTheory.lean'], solver='lean',
@@ -95,16 +101,26 @@ PROPS = {
              'feeding the encoding of a valid non-sysex message of each of the 17 types queues exactly that message and leaves '
              'no partial message; for sysex, Tokenizer.feed over F0 ++ y ++ F7 with y any mix of data and real-time bytes of any '
              'length is proved by a loop invariant (payload = data bytes of y in order, each defined real-time byte delivered at '
-             'once and ahead of the sysex, the final token is F0 payload F7).',
-        note='trusted: pyvc, z3/cvc5; concatenation corollary follows by induction over the message list from resynchronisation '
-             '(not mechanised); the sysex clause is stated at token level, decoding of the token is covered by C01/C02',
+             'once and ahead of the sysex, the final token is F0 payload F7). The two corollaries of the property statement - P ++ '
+             'enc(M) yields the messages of P followed by M, and any concatenation of encodings parses back to the same list - are '
+             'proved in Lean 4 (lean/StreamInduction.lean: induction over the byte string for the fold law, induction over the message '
+             'list for the corollary) from exactly two hypotheses: feeding is the fold of the per-byte step (contract '
+             'C05.feed-is-a-fold-of-feed_byte on the real Tokenizer.feed) and resynchronisation from any well-formed state (the two '
+             'contracts above).',
+        note='trusted: pyvc, z3/cvc5, Lean kernel; the correspondence between the hypotheses `run`/`resync` of the Lean theorems and the '
+             'contracts C05.feed-is-a-fold-of-feed_byte, C06.resync-fixed, C06.resync-sysex is by inspection; the sysex clause is stated '
+             'at token level, decoding of the token is covered by C01/C02',
         clauses=[
             ['any WF state + enc(M) for the 17 fixed-length types => exactly M queued, no partial left', 'P'],
             ['sysex with inserted real-time bytes, any length', 'P'],
-            ['concatenation of encoded messages parses back (induction over the list)', 'assumed meta-theorem'],
+            ['P ++ enc(M) -> messages of P then M; concatenation of encoded messages parses back: induction over the list in Lean '
+             'from the fold contract and the resynchronisation contracts', 'P (hypothesis correspondence by inspection)'],
         ],
-        assumptions=['induction over the message list for the concatenation corollary'],
-        trusted_base=[],
+        assumptions=['correspondence between the hypotheses of lean/StreamInduction.lean (run = fold of the step, resync) and the '
+                     'contracts C05.feed-is-a-fold-of-feed_byte / C06.resync-fixed / C06.resync-sysex (by inspection)'],
+        trusted_base=['Lean 4 + Mathlib (StreamInduction: run_append, prefix_then_message, concat_parses_back)'],
+        external=[dict(name='lean:StreamInduction', cmd=['lean', 'lean/StreamInduction.lean'], solver='lean',
+                       obligations=['run_append', 'prefix_then_message', 'concat_parses_back'], timeout=900)],
     ),
     'C09': dict(
         level='proof',
@@ -115,8 +131,9 @@ PROPS = {
              'with termination). encode_variable_int is proved canonical for all non-negative integers, decode_variable_int is '
              'its inverse on every VLQ-shaped list (lemma VLQ.value by induction).',
         note='trusted: pyvc, z3/cvc5, SMF payload layouts and documented domains in contracts/spec_meta.py; text payloads use '
-             'an assumed codec contract (Dec(cs, Enc(cs, s)) == s for encodable s); non-power-of-two denominators and non-integer '
-             'kinds are checked on representative values; known findings K1 (smpte hours >= 32) and K4 (list-valued '
+             'an assumed codec contract (Dec(cs, Enc(cs, s)) == s for encodable s); non-integer '
+             'kinds are checked on representative values; `x & (x - 1)` is known to the engine only through the bit-vector lemma '
+             'bv.x-and-x-minus-one (contracts/l_bits.py); known findings K1 (smpte hours >= 32) and K4 (list-valued '
              'sequencer_specific data) are listed in known_findings.json and proved absent outside their regions',
         clauses=[
             ['constructor accepts exactly the documented domain (per attribute)', 'P'],
@@ -124,7 +141,10 @@ PROPS = {
             ['from_bytes(bytes(m)) == m, any payload length', 'P (PA codec axiom for text)'],
             ['encode_variable_int canonical for all n >= 0; decode_variable_int inverse; lemma VLQ.value', 'P'],
             ['all 256 denominators accepted and round-trip; 30 keys; 4 frame rates', 'P (exhaustive enumeration of the finite domains)'],
-            ['non-powers of two rejected', 'B'],
+            ['time_signature denominator over ALL integers: accepted iff it is one of 2**0..2**255 (the test `v & (v - 1)` through the '
+             'theory lemma bv.x-and-x-minus-one, discharged in bit-vector mode for widths 16/64/256 on every run)', 'P'],
+            ['checked assignment MetaMessage._setattr from ANY valid message: stored iff in the documented domain, other attributes '
+             'kept, a rejected assignment (ValueError/TypeError; AttributeError for type / unknown names) changes nothing', 'P'],
             ['reading a meta event from a track', 'see C07/C08'],
         ],
         assumptions=['text codec: Encodable(cs, s) => Dec(cs, Enc(cs, s)) == s and Enc yields bytes',
